@@ -552,6 +552,72 @@ pub fn gen_tri(rng: &mut Rng, max_dim: usize, f32_ok: bool) -> Case {
     }
 }
 
+/// D3-overlay: the operands come from two *independent* jittered triangulations, the second rotated and shifted against
+/// the first, so their edges cross transversally in many places and the operands have many parts, holes and pinch
+/// vertices with floating-point coordinates. Truth comes from the even-odd oracle on the operands (no construction
+/// truth across two tessellations). Returns None (counted) when the general-position filter rejects the draw.
+pub fn gen_overlay(rng: &mut Rng, max_dim: usize, f32_ok: bool) -> Option<Case> {
+    let scale = [1.0, 1e-3, 1e6, 0.37, 123.456][rng.below(5) as usize];
+    let one = |rng: &mut Rng, rotate: bool| -> (MP, String) {
+        let w = rng.range(1, max_dim as i64) as usize;
+        let h = rng.range(1, max_dim as i64) as usize;
+        let t = Tess::tri_grid(rng, w, h);
+        let (sel, kind) = select(rng, &t, None);
+        let (theta, tx, ty, zoom) = if rotate { (rng.unit() * std::f64::consts::TAU, rng.unit() * 2.0 - 1.0, rng.unit() * 2.0 - 1.0, 0.6 + rng.unit() * 0.9) } else { (0.0, 0.0, 0.0, 1.0) };
+        let (cx, cy) = (w as f64 / 2.0, h as f64 / 2.0);
+        let mut jit: HashMap<P, Pt> = HashMap::new();
+        for y in 0..=h as i64 {
+            for x in 0..=w as i64 {
+                let jx = (rng.unit() * 2.0 - 1.0) * 0.2;
+                let jy = (rng.unit() * 2.0 - 1.0) * 0.2;
+                let (fx, fy) = ((x as f64 + jx - cx) * zoom, (y as f64 + jy - cy) * zoom);
+                let (rx, ry) = (fx * theta.cos() - fy * theta.sin() + tx, fx * theta.sin() + fy * theta.cos() + ty);
+                let mut p = (rx * scale * 1.2345678, ry * scale * 1.2345678);
+                if f32_ok {
+                    p = (round_f32(p.0), round_f32(p.1));
+                }
+                jit.insert((x, y), p);
+            }
+        }
+        let map = |p: P| -> Pt { jit[&p] };
+        (t.to_mp(&sel, false, &map), format!("{}x{} {}", w, h, kind))
+    };
+    let (a, da) = one(rng, false);
+    let (b, db) = one(rng, true);
+    if a.is_empty() || b.is_empty() {
+        return None;
+    }
+    let extent = max_abs_coord(&[&a, &b]);
+    if !general_position(&a, &b, 1e-5 * extent, 0.05, false) {
+        return None;
+    }
+    if n2_hazard(&a, &b, false) {
+        return None;
+    }
+    let f32_ok = f32_ok && !n2_hazard(&a, &b, true);
+    Some(Case {
+        family: "D3-overlay",
+        desc: format!("two independent jittered triangulations overlaid: a={} b={} scale={}", da, db, scale),
+        a,
+        b,
+        exact: false,
+        exact_f32: false,
+        integer: false,
+        f32_ok,
+        self_crossing: false,
+        faces: vec![],
+    })
+}
+
+pub fn gen_overlay_retry(rng: &mut Rng, max_dim: usize, f32_ok: bool, rejected: &mut u64) -> Case {
+    loop {
+        if let Some(c) = gen_overlay(rng, max_dim, f32_ok) {
+            return c;
+        }
+        *rejected += 1;
+    }
+}
+
 fn star(rng: &mut Rng, cx: f64, cy: f64, rmax: f64, n: usize, snap: f64, f32_ok: bool) -> Ring {
     let mut pts: Vec<Pt> = Vec::new();
     for i in 0..n {
@@ -920,8 +986,12 @@ pub fn gen_mixed(rng: &mut Rng, size: usize, rejected: &mut u64) -> Case {
         1 => (7, 4, 5, 12),
         _ => (12, 7, 8, 28),
     };
-    match rng.below(17) {
+    match rng.below(18) {
         16 => gen_shallow(rng),
+        17 => {
+            let f = rng.below(2) == 0;
+            gen_overlay_retry(rng, tri, f, rejected)
+        }
         0..=4 => gen_rect(rng, grid),
         5..=9 => gen_lattice(rng, lat),
         10..=11 => {
